@@ -235,6 +235,11 @@ def cfgOfParams (p : Params) : Cfg :=
     opts := { strip := p.strip, initSeq := p.initSeq, initTsOff := p.initTsOff, initOutTs := none },
     videoPts := [], hasVideo := false }
 
+/-- installing a bridge again (`bridge_rewrite_*` stores a NEW `RewriteBridge`) or clearing it discards the stream
+table: output SSRC, sequence numbers and timestamp offsets of every source start over.  "Stable for life" in the
+theorems means the life of one installed bridge. -/
+def reinstalled : Streams := []
+
 /-- an arriving packet with its two random draws -/
 abbrev In := Pkt × UInt16 × UInt32
 
